@@ -327,6 +327,7 @@ class Path:
         self.decisions = []
         self.pending = []
         self.solver = z3.Solver()
+        self.timeout_ms = timeout_ms
         self.solver.set("timeout", timeout_ms)
         self.stats = stats or Stats()
         self.nfresh = 0
@@ -349,7 +350,16 @@ class Path:
         try:
             self.solver.add(*extra)
             r = self.solver.check()
-            m = self.solver.model() if r == z3.sat else None
+            if r == z3.unknown:
+                # one retry on a fresh solver with a longer limit (incremental state and load on
+                # the machine both make the first attempt flaky)
+                s2 = z3.Solver()
+                s2.set("timeout", self.timeout_ms * 4)
+                s2.add(self.solver.assertions())
+                r = s2.check()
+                m = s2.model() if r == z3.sat else None
+            else:
+                m = self.solver.model() if r == z3.sat else None
         finally:
             self.solver.pop()
             self.stats.solver_time += time.time() - t0
